@@ -219,12 +219,13 @@ def c07(tier, repo=None):
                 dict(fam="flow2", adds=5, post=0, br=2, simulate="num=300", depth=70, limit=3000)]
         limit = 30000
     else:
-        models = [("flow", 2, 0, ["AllOutcome", "Sound", "FrozenMaps"]), ("flowend", 3, 0, ["AllOutcome", "Sound", "FrozenMaps"])]
-        fams = [dict(fam="flow", adds=2, post=0), dict(fam="flowend", adds=3, post=0, timeout=1500),
-                dict(fam="flow", adds=3, post=0, timeout=1700, workers=4, limit=120000),
-                dict(fam="flow", adds=5, post=0, br=2, simulate="num=40000", depth=80),
-                dict(fam="flow2", adds=6, post=0, br=2, simulate="num=20000", depth=90)]
-        limit = 250000
+        models = [("flow", 2, 0, ["AllOutcome", "Sound", "FrozenMaps"]), ("flowend", 2, 0, ["AllOutcome", "Sound", "FrozenMaps"])]
+        fams = [dict(fam="flow", adds=2, post=0), dict(fam="flowend", adds=2, post=0),
+                dict(fam="flow", adds=3, post=0, simulate="num=6000", depth=60),
+                dict(fam="flowend", adds=4, post=0, br=2, simulate="num=4000", depth=70),
+                dict(fam="flow", adds=5, post=0, br=2, simulate="num=6000", depth=80),
+                dict(fam="flow2", adds=6, post=0, br=2, simulate="num=1500", depth=90)]
+        limit = 300000
     return run_build_check("C07", tier, models=models, probes=probes, families=fams, limit=limit, nontrivial=_accepted_and_ran, repo=repo,
                            assumptions=[
                                "a group of connected pass-through nodes carries a static obligation only when every declared type adjoining it is "
@@ -244,13 +245,14 @@ def c20(tier, repo=None):
                 dict(fam="seq", adds=4, post=2, aftererr=2, simulate="num=320", depth=70, limit=8000)]
         limit = 40000
     else:
-        models = [("seq", 2, 1, ["AllOutcome", "FrozenMaps"]), ("seqp", 2, 1, ["AllOutcome", "FrozenMaps"]), ("wf", 0, 3, ["AllOutcome", "FrozenMaps"]),
-                  ("flow", 2, 1, ["AllOutcome", "FrozenMaps"])]
-        fams = [dict(fam="seq", adds=2, post=1, timeout=1500, workers=4), dict(fam="seqp", adds=2, post=1, timeout=1500, workers=4), dict(fam="wf", adds=0, post=3),
-                dict(fam="flow", adds=2, post=1, timeout=1500, workers=4),
-                dict(fam="seqs", adds=3, post=1, aftererr=2, simulate="num=50000", depth=60),
-                dict(fam="seq", adds=5, post=2, aftererr=2, br=2, simulate="num=100000", depth=80)]
-        limit = 800000
+        models = [("seq", 2, 0, ["AllOutcome", "FrozenMaps"]), ("seqp", 2, 0, ["AllOutcome", "FrozenMaps"]), ("seqs", 1, 1, ["AllOutcome", "FrozenMaps"]),
+                  ("wf", 0, 3, ["AllOutcome", "FrozenMaps"]), ("flow", 2, 1, ["AllOutcome", "FrozenMaps"])]
+        fams = [dict(fam="seq", adds=2, post=0), dict(fam="seqp", adds=2, post=0), dict(fam="seqs", adds=1, post=1), dict(fam="wf", adds=0, post=3),
+                dict(fam="flow", adds=2, post=1, timeout=1500),
+                dict(fam="seqs", adds=3, post=1, aftererr=2, simulate="num=2500", depth=60),
+                dict(fam="seqp", adds=4, post=2, aftererr=2, br=2, simulate="num=3000", depth=80),
+                dict(fam="seq", adds=5, post=2, aftererr=2, br=2, simulate="num=4000", depth=80)]
+        limit = 400000
     return run_build_check("C20", tier, models=models, probes=probes, families=fams, limit=limit, nontrivial=_violation_or_post, repo=repo,
                            assumptions=[
                                "'the first error sticks' is read for Add* errors: a failed Compile (missing entry, cycle ...) is not recorded by the "
